@@ -270,13 +270,27 @@ func (x *Exec) lock(st *State, fi int, mu Value, mode string, site ssa.Instructi
 			x.oblige(st, "lock", "double-acquire "+g.Struct+"."+g.Mutex, "", FalseT, site.Pos())
 		}
 	}
-	// havoc the footprint, in order
+	x.havocFootprint(st, fi, g, l.Base, l.Root)
+	st.locks = append(st.locks, lockHeld{guard: g, obj: l.Base, mode: mode, snap: copyHeap(st.heap), snapEpoch: st.epoch})
+	// old() now refers to the state at acquisition
+	st.oldHeap = copyHeap(st.heap)
+	st.oldEpoch = st.epoch
+	st.oldNow = st.now
+	if x.muted == 0 && fi == 0 {
+		x.reach(st, fmt.Sprintf("after %s.Lock", g.Struct))
+	}
+}
+
+// havocFootprint forgets the state protected by guard g of object obj (other
+// threads may have changed it) and assumes the lock invariant.
+func (x *Exec) havocFootprint(st *State, fi int, g *GuardSpec, obj Term, root types.Type) {
 	for _, item := range g.Footprint {
-		env := x.guardEnv(st, fi, g, l.Base, l.Root)
+		env := x.guardEnv(st, fi, g, obj, root)
 		mods := map[string][]Term{}
 		x.resolveModifies(st, env, item, mods, "footprint of "+g.Struct)
 		for _, name := range sortedKeys(mods) {
 			sortS := x.heapSorts[name]
+			x.recHeap(name)
 			cur := x.heapGet(st, name, sortS)
 			for _, o := range mods[name] {
 				cur = Store(cur, o, x.decls.Fresh("locked."+name, arrayElemSort(sortS)))
@@ -289,19 +303,32 @@ func (x *Exec) lock(st *State, fi int, mu Value, mode string, site ssa.Instructi
 	st.now = n
 	// assume the invariant and the type invariants of the footprint
 	for _, inv := range g.Inv {
-		env := x.guardEnv(st, fi, g, l.Base, l.Root)
+		env := x.guardEnv(st, fi, g, obj, root)
 		if t, ok := x.evalClause(st, env, inv); ok {
 			st.assume(t)
 		}
 	}
-	st.locks = append(st.locks, lockHeld{guard: g, obj: l.Base, mode: mode, snap: copyHeap(st.heap), snapEpoch: st.epoch})
-	// old() now refers to the state at acquisition
-	st.oldHeap = copyHeap(st.heap)
-	st.oldEpoch = st.epoch
-	st.oldNow = st.now
-	if x.muted == 0 && fi == 0 {
-		x.reach(st, fmt.Sprintf("after %s.Lock", g.Struct))
+}
+
+// calleeGuard: a method of a guarded struct (other than a constructor) is
+// assumed to take the struct's lock: at a call site the protected state is
+// unknown (another thread may have changed it since the caller last saw it).
+func (x *Exec) calleeGuard(ct *Contract, callee *ssa.Function) (*GuardSpec, types.Type) {
+	if callee == nil || ct.Constructs || callee.Signature.Recv() == nil {
+		return nil, nil
 	}
+	rt := callee.Signature.Recv().Type()
+	p, ok := rt.Underlying().(*types.Pointer)
+	if !ok {
+		return nil, nil
+	}
+	tn := baseTypeName(p.Elem())
+	for _, g := range x.w.guards {
+		if g.Struct == tn && x.w.guardPkg[g] == ct.Pkg {
+			return g, p.Elem()
+		}
+	}
+	return nil, nil
 }
 
 func (x *Exec) unlock(st *State, fi int, mu Value, site ssa.Instruction) {
